@@ -1397,6 +1397,11 @@ func (c *Client) onPUBLISH(head byte) (message, topic []byte, err error) {
 			return nil, nil, err
 		}
 		if bytes != nil {
+			// The broker may have missed the first PUBREC.
+			err = c.write(nil, bytes)
+			if err != nil {
+				return nil, nil, err
+			}
 			return nil, nil, errDupe
 		}
 
